@@ -746,6 +746,57 @@ def chain_labels(c):
     return out
 
 
+# ----------------------------------------------------------------------------------------- (e) consumers of the dependent_values mask
+@st.composite
+def inface_case(draw, tier="quick"):
+    return {"o": [draw(C.ints(4)) for _ in range(3)], "e": [draw(st.integers(1, 3)) for _ in range(3)], "face": draw(st.integers(0, 5)), "a": [draw(st.integers(-4, 8)) for _ in range(2)], "b": [draw(st.integers(-4, 8)) for _ in range(2)],
+            "what": draw(st.sampled_from(["cuboid", "cuboid", "polygons-vs-segments"]))}
+
+
+def run_inface(c):
+    """a segment that lies in the plane of one face of a box: the meet of that plane with the segment's line is linearly dependent, the library drops
+    the position (using the mask of the error) and intersects the other faces - whatever it returns must lie on the segment and on the box"""
+    from geometer import Cuboid, PolygonCollection, Segment, SegmentCollection
+
+    o = np.array(c["o"], float)
+    e = [float(x) for x in c["e"]]
+    axis, side = c["face"] % 3, c["face"] // 3
+    oa = [k for k in range(3) if k != axis]
+    A, B = np.zeros(3), np.zeros(3)
+    A[axis] = B[axis] = side * e[axis]
+    A[oa[0]], A[oa[1]] = c["a"][0] / 4 * e[oa[0]], c["a"][1] / 4 * e[oa[1]]
+    B[oa[0]], B[oa[1]] = c["b"][0] / 4 * e[oa[0]], c["b"][1] / 4 * e[oa[1]]
+    if np.array_equal(A, B):
+        raise Skip("degenerate")
+    P_ = lambda x: Point(np.append(o + x, 1.0))  # noqa: E731
+    box = Cuboid(P_(np.zeros(3)), P_(np.array([e[0], 0, 0])), P_(np.array([0, e[1], 0])), P_(np.array([0, 0, e[2]])))
+    seg = Segment(P_(A), P_(B))
+    site = f"segment-in-a-face-plane:{c['what']}"
+    if c["what"] == "cuboid":
+        r, f = call(site, box.intersect, seg)
+    else:
+        faces = box.faces
+        n = np.asarray(faces.array).shape[0]
+        r, f = call(site, faces.intersect, SegmentCollection([seg] * n))
+    if f:
+        return [f]
+    ck = Checker()
+    for pnt in r:
+        arr = np.asarray(pnt.array).reshape(-1, 4)
+        for row in arr:
+            if abs(row[-1]) < 1e-12:
+                ck.check(False, site + ":returned-point-at-infinity", row.tolist())
+                continue
+            q = np.real(row[:3] / row[3]) - o
+            dvec = B - A
+            t = float(np.dot(q - A, dvec) / np.dot(dvec, dvec))
+            on_seg = np.linalg.norm(A + t * dvec - q) < 1e-7 and -1e-9 <= t <= 1 + 1e-9
+            in_box = all(-1e-7 <= q[k] <= e[k] + 1e-7 for k in range(3))
+            if not ck.check(on_seg and in_box, site + ":returned-point-not-on-" + ("the-segment" if not on_seg else "the-box"), (q.tolist(), A.tolist(), B.tolist())):
+                return ck.result()
+    return ck.result()
+
+
 LAWS = [
     Law("lattice", None, run_lattice, enumerate=lattice_cases, enum_shards=6,
         exhaustive=lambda tier: {"name": "all pairs of {-1,0,1}^3 and {-1,0,1}^4 and all triples of {-1,0,1}^4 (zero vector included), for points (join) and hyperplanes (meet), through the collection API", "size": 2 * (729 + 6561 + 531441), "exhaustive": True},
@@ -759,6 +810,9 @@ LAWS = [
     Law("constructed", lambda tier: degen_case(tier), run_degen, degen_nontrivial, degen_labels, {"quick": 2500, "thorough": 40000},
         "constructed degeneracies with scrambled representatives, single and inside collections", shard=300,
         mandatory=("collection", "single", "collection-without-degenerate-position", "mixed-magnitude-collection", "narrow-integer-type")),
+    Law("segment_in_a_face_plane", lambda tier: inface_case(tier), run_inface, lambda c: True, lambda c: [c["what"], "ends-inside-the-face" if all(0 < x < 4 for x in c["a"] + c["b"]) else "reaches-out"], {"quick": 600, "thorough": 8000},
+        "Cuboid / PolygonCollection.intersect(segment lying in a face plane): the dependent position is dropped through the mask of LinearDependenceError; every returned point lies on the segment and on the box", shard=150,
+        mandatory=("ends-inside-the-face", "reaches-out")),
     Law("chains_on_grids", lambda tier: chain_case(tier), run_chain, lambda c: len(c["pos"]) > 1, chain_labels, {"quick": 1500, "thorough": 25000},
         "meet(join(P, Q), join(R, S)) on grids (1 to 3 collection axes) whose positions differ by up to a factor 300 in size: exact point at every position, mask of LinearDependenceError == positions with coinciding lines, NotCoplanar iff a skew pair",
         shard=300, mandatory=("several-axes:magnitudes-differ-by-100", "equal", "skew")),
